@@ -372,7 +372,10 @@ def exc_classes():
 
     class UserSubscribe(idt.SubscribeError):
         pass
-    return lib, [RuntimeError, ValueError, KeyError, UserDefined], [UserCredits, UserSubscribe]
+    # "any other Exception": the usual suspects of a failing adapter body, incl. the ones a library might be tempted to treat
+    # specially (TypeError / AttributeError as "wrong signature", OSError as "I/O problem", LookupError, AssertionError)
+    return lib, [RuntimeError, ValueError, KeyError, UserDefined, TypeError, AttributeError, OSError, ZeroDivisionError, AssertionError], \
+        [UserCredits, UserSubscribe]
 
 
 def make_exc(cls, R, msg=None):
